@@ -38,7 +38,8 @@ Inductive mexpr :=
   | MGetAttr (a : string) (d : mexpr)                     (* getattr(self, "a", d) *)
   | MMeth (o : mexpr) (m : string) (args : list mexpr)    (* o.m(args) *)
   | MApply (f : mexpr) (args : list mexpr)                (* f(args), f a local variable *)
-  | MFn (f : string) (args : list mexpr)                  (* module-level function f(args) *)
+  | MFn (f : string) (args : list mexpr)                  (* module-level function / builtin f(args), e.g. super() *)
+  | MField (o : mexpr) (a : string)                       (* o.a *)
   | MOrElse (a b : mexpr).
 Inductive mstmt :=
   | MAssign (v : string) (e : mexpr) | MIfNone (v : string) (e : mexpr)
@@ -46,7 +47,7 @@ Inductive mstmt :=
 
 Record class_desc := { c_name : string; c_parent : option string; c_init : option init_desc;
                        c_methods : list string; c_get_gemini : option gg_body;
-                       c_score : option (list mstmt) }.
+                       c_score : option (list mstmt); c_fit_predict : option (list mstmt) }.
 
 (* gemini/_utils.py: AVAILABLE_GEMINIS and the if-chain of _str_to_gemini, in source order *)
 Record registry := { r_available : list string; r_chain : list (string * (string * list (string * const))) }.
@@ -159,6 +160,7 @@ Fixpoint msubst (env : list (string * mexpr)) (e : mexpr) : mexpr :=
   | MMeth o m args => MMeth (msubst env o) m (map (msubst env) args)
   | MApply f args => MApply (msubst env f) (map (msubst env) args)
   | MFn f args => MFn f (map (msubst env) args)
+  | MField o a => MField (msubst env o) a
   | MOrElse a b => MOrElse (msubst env a) (msubst env b)
   end.
 (* the returned expression in terms of self, the arguments and calls made at that time; the
@@ -174,6 +176,11 @@ Fixpoint run_body (env : list (string * mexpr)) (writes : list string) (b : list
 Definition score_term (tbl : list class_desc) (cls : string) : option (mexpr * list string) :=
   match find_method tbl (chain_fuel tbl) cls "score" with
   | Some c => match c_score c with Some b => run_body [] [] b | None => None end
+  | None => None
+  end.
+Definition fit_predict_term (tbl : list class_desc) (cls : string) : option (mexpr * list string) :=
+  match find_method tbl (chain_fuel tbl) cls "fit_predict" with
+  | Some c => match c_fit_predict c with Some b => run_body [] [] b | None => None end
   | None => None
   end.
 (* result conversions that do not change which objective / affinity is used *)
@@ -330,4 +337,4 @@ Definition fit_history (n : nat) (step : list (list T) -> nat -> St -> St) (step
            pwf callf (y : option (nat -> nat -> T)) (o : outcome) : option (list St) :=
   option_map (fun A => history step (mat_tab n A) 0 steps s0) (affinity_matrix pwf callf y o).
 End Train.
-(* EXTRACT: score_term strip_conv construct ctor_params estimator_gemini resolve_gemini str_to_gemini describe training_affinity affinity_dispatch affinity_warns kauri_dispatch kernelrim_dispatch method_owner *)
+(* EXTRACT: score_term fit_predict_term strip_conv construct ctor_params estimator_gemini resolve_gemini str_to_gemini describe training_affinity affinity_dispatch affinity_warns kauri_dispatch kernelrim_dispatch method_owner *)
